@@ -278,12 +278,48 @@ def _task_options(task):
                 t.violation({"kind": "parse-all-wrong", "max_items": True}, case, expected=want, observed=shown[:24],
                             note="with --max-items k the first min(n, k) packets are shown, each once, in order")
             t.nontrivial += 1
+    # file names and directories with characters that mean something to a formatter (%-formatting, str.format, rich markup), with and
+    # without live logging: the path is only a label, it must never be interpreted
+    import shutil
+    pkts = packets_for(3)
+    base = os.path.join(work, f"c19n_{os.getpid()}")
+    for name in task.get("names", ()):
+        fpath = os.path.join(base, name)
+        try:
+            os.makedirs(os.path.dirname(fpath), exist_ok=True)
+            with open(fpath, "wb") as f:
+                f.write(b"".join(pkts))
+        except OSError:
+            continue  # the file system does not take this name
+        for g in ([], ["-v"], ["--log-level", "INFO"], ["-q"]):
+            for cmd in ("describe-packets", "parse"):
+                logging.disable(logging.NOTSET)
+                try:
+                    code, exc, out = invoke(g + ([cmd, fpath] if cmd == "describe-packets" else [cmd, fpath, xtce, "--packet", "2"]))
+                finally:
+                    logging.disable(logging.CRITICAL)
+                t.evals += 1
+                t.nontrivial += 1
+                case = {"cmd": cmd, "n": 3, "file_name": name, "group_options": g}
+                if code != 0 or exc:
+                    t.violation({"kind": "cli-crash", "cmd": cmd, "exit": str(code), "exc": exc, "file_name": name}, case, observed=out[-300:],
+                                note="the command failed because of characters in the file's path")
+                elif cmd == "describe-packets" and table_rows(out) != _expect_listing(pkts):
+                    t.violation({"kind": "listing-wrong", "file_name": name}, case, expected=_expect_listing(pkts), observed=table_rows(out)[:8])
+                elif cmd == "parse" and [int(x) for x in re.findall(r"'PKT_APID':\s*(\d+)", out)] != [102]:
+                    t.violation({"kind": "parse-shows-wrong-packet", "file_name": name}, case, expected=[102], observed=out[-200:])
+    shutil.rmtree(base, ignore_errors=True)
     for pth in (path, xtce):
         try:
             os.unlink(pth)
         except OSError:
             pass
     return t
+
+
+NAMES = ["plain.bin", "pass%2042.pkts", "cal_50%.pkts", "dump_%s.bin", "100%d.bin", "a b.bin", "x{0}.bin", "{name}.bin", "\u00e9t\u00e9.bin", "[bold]x.bin",
+         "x[red].bin", "a[/b].bin", "run[1]/data[2].bin", "[/bold magenta].bin".replace("/", "_") , "c[/d]/e.bin", "tab\there.bin", "quote'\".bin",
+         "-v.bin", "--packet", "back\\slash.bin"]
 
 
 def anyfiles(tier):
@@ -316,14 +352,16 @@ def run(ctx):
     from mc.kernel import chunked
     files = anyfiles(ctx.tier)
     tally.merge(fan_out(_task_anyfile, [{"files": ch, "work": ctx.work} for ch in chunked(files, 24)], jobs=ctx.jobs, seed=ctx.seed, mem_gib=6.0))
-    tally.merge(fan_out(_task_options, [{"ns": [n], "work": ctx.work} for n in ((0, 1, 3, 10, 11, 25) if ctx.quick else range(0, 27))], jobs=ctx.jobs, seed=ctx.seed, mem_gib=6.0))
+    tally.merge(fan_out(_task_options, [{"ns": [n], "work": ctx.work} for n in ((0, 1, 3, 10, 11, 25) if ctx.quick else range(0, 27))]
+                        + [{"ns": [], "work": ctx.work, "names": [nm]} for nm in NAMES], jobs=ctx.jobs, seed=ctx.seed, mem_gib=6.0))
     coverage = {
         "exhaustive": True,
         "bound": (f"files of n = {'0..13, 22, 25' if ctx.quick else '0..26 and 40'} packets, each also with 3 and 7 trailing bytes of an incomplete packet; "
                   "describe-packets on each; parse --packet i for every i in 0..n+1; parse without index; parse --skip-header-bytes 4 on files with 4 foreign bytes per record, complete and cut short by 1..5 bytes; "
                   f"'any file': every sequence of <= {3 if ctx.quick else 5} units over 6 units (3 packets with extreme header values, stray bytes, a header promising more than follows), "
                   f"every byte string of <= {6 if ctx.quick else 9} bytes over {{00, FF, 08}}, long files with garbage at the front/tail, a maximum-size packet ({len(files)} files), each through "
-                  "describe-packets, parse, parse --packet {0, last, last+1} against the greedy framing model; group options -q / -v / --log-level and --max-items 7..50"),
+                  "describe-packets, parse, parse --packet {0, last, last+1} against the greedy framing model; group options -q / -v / --log-level and --max-items 7..50; "
+                  f"{len(NAMES)} file and directory names containing %, braces, brackets (rich markup), spaces, quotes, non-ASCII and option-like names x 4 logging configurations x both commands"),
         "rule": "one evaluation = one CLI invocation through click's runner; distinct non-trivial = distinct (command, file, index) invocations",
     }
     return {"level": LEVEL, "tally": tally, "coverage": coverage,
@@ -338,6 +376,12 @@ def replay(case):
         t = _task_anyfile({"files": files, "work": work})
         for v in t.violations:
             if v["case"].get("cmd") == case.get("cmd") and v["case"].get("index") == case.get("index"):
+                return v
+        return None
+    if "file_name" in case:
+        t = _task_options({"ns": [], "work": work, "names": [case["file_name"]]})
+        for v in t.violations:
+            if v["case"].get("cmd") == case.get("cmd") and v["case"].get("group_options") == case.get("group_options"):
                 return v
         return None
     if "group_options" in case or "max_items" in case:
